@@ -3,11 +3,15 @@
 import json, os
 ROOT = os.path.dirname(os.path.dirname(os.path.abspath(__file__)))
 TRUST = "TLC 1.8 / Apalache 0.58 and the Json/IOUtils community modules; the Rust harness under /verif/harness (its reference arithmetic is itself validated by TLC); results hold for the explored scope only"
-CHECKS = {
- "C14": dict(cat="model_checking", tech="TLA+ transcription of the field algorithms: TLC exhaustive at half-word size K<=4, Apalache at K=32 over all operands; TLC trace validation (operation logs of the real operators against the mathematical definition on byte limbs)",
-   text="The branch-level algorithms (add/sub/neg/reductions/accumulators) are proved equal to modular arithmetic for all operands in the model (TLC small K, Apalache 64-bit); the Rust code is bound to the model by operation logs of the real scalar and packed operators on Apalache's branch witnesses, the lifted K=4 space, the boundary lattice and random words, every event validated by TLC against schoolbook arithmetic mod p, extensions against the binomial.",
-   ref="6 C14"),
-}
+CHECKS = {}
+for f in sorted(os.listdir(os.path.join(ROOT, "claims"))):
+    if f.endswith(".json"):
+        c = json.load(open(os.path.join(ROOT, "claims", f)))
+        CHECKS[f[:-5]] = dict(cat=c["category"], tech=c["technique"], text=c["text"], ref=c.get("design_ref", "6"),
+                              **({"note": c["level_note"]} if "level_note" in c else {}))
+NA = {}
+if os.path.exists(os.path.join(ROOT, "claims", "not_applicable.json")):
+    NA = json.load(open(os.path.join(ROOT, "claims", "not_applicable.json")))
 NA_REASON = "check not built yet in this snapshot; planned with the specification modules listed in DESIGN.md section 6"
 props = [json.loads(l)["id"] for l in open(os.path.join(ROOT, "properties.jsonl"))]
 checks = []
@@ -39,7 +43,7 @@ man = {
     "engines": [{"name": "vcheck", "path": "bin/vcheck", "serves_properties": [c["property_id"] for c in checks],
                  "kind_free_text": "python driver: TLC / Apalache runs of spec/*.tla, scenario replay and trace validation through the Rust harness harness/ (binary vh) built against /repo"}],
     "checks": checks,
-    "not_applicable": [{"property_id": p, "reason": NA_REASON} for p in props if p not in CHECKS],
+    "not_applicable": [{"property_id": p, "reason": NA.get(p, NA_REASON)} for p in props if p not in CHECKS],
     "notes": "Specifications: spec/*.tla. DESIGN.md explains the two-tier specification, the verdict policy (VIOLATION only for property-level mismatches) and the bindings. known_findings.jsonl lists confirmed defects.",
 }
 json.dump(man, open(os.path.join(ROOT, "MANIFEST.json"), "w"), indent=1)
